@@ -20,6 +20,7 @@ pub const HARNESSES: &[(&str, fn())] = &[
     ("c11_umad_vector", c11_umad_vector::<1>),
     ("c11_umad_vector_n2", c11_umad_vector::<2>),
     ("c11_umad_empty", c11_umad_empty),
+    ("c11_linear_impls", c11_linear_impls),
     ("c12_with_rate_threshold", c12_with_rate_threshold),
     ("c12_umad_threshold", c12_umad_threshold),
 ];
@@ -296,7 +297,7 @@ pub fn c11_umad_vector<const N: usize>() {
     }
     cover!(kept == 0 && added == len, "every parent gene deleted, every new gene kept");
     cover!(kept == len && added == 0, "nothing changes");
-    cover!(kept < len && kept > 0, "some but not all parent genes deleted");
+    cover!(N == 1 || (kept < len && kept > 0), "some but not all parent genes deleted (lengths >= 2)");
 }
 #[cfg(kani)]
 #[kani::proof]
@@ -448,3 +449,28 @@ impl FromIterator<u8> for ArrG {
     }
 }
 
+
+/// the genome types' own `Linear` impls (what the generic mutators rely on): size counts every gene — close markers
+/// included — and gene_mut addresses exactly the genes
+pub fn c11_linear_impls() {
+    use ec_linear::genome::Linear;
+    use push::genome::plushy::{Plushy, PushGene};
+    let mut p = Plushy::new([PushGene::Close, PushGene::Close]);
+    check!(p.size() == 2, "a Plushy's size counts every gene, close markers included");
+    check!(p.gene_mut(1).is_some() && p.gene_mut(2).is_none(), "Plushy::gene_mut addresses exactly the genes");
+    std::mem::forget(p);
+    let n = any_upto(3);
+    let mut v = Vector { genes: tagged_vec(n) };
+    check!(v.size() == n, "a Vector's size is its number of genes");
+    check!(v.gene_mut(n).is_none() && (n == 0 || v.gene_mut(n - 1).is_some()), "Vector::gene_mut addresses exactly the genes");
+    let mut b = Bitstring { bits: sym_bits(n) };
+    check!(b.size() == n, "a Bitstring's size is its number of bits");
+    check!(b.gene_mut(n).is_none() && (n == 0 || b.gene_mut(n - 1).is_some()), "Bitstring::gene_mut addresses exactly the genes");
+    cover!(n == 3, "three genes reachable");
+}
+#[cfg(kani)]
+#[kani::proof]
+#[kani::unwind(6)]
+fn p_c11_linear_impls() {
+    c11_linear_impls()
+}
